@@ -537,7 +537,8 @@ def _rekey_window_batch(sc, r):
     ra = next(iter(configs.read_conf(sc['nodes']['A']['conf']).values()))
     if len(ra['protect']) < 2:
         return
-    ca['lifetime'], cb['lifetime'] = 10000, r.choice([6, 8, 12])
+    own = r.random() < 0.5       # ... or A rekeys itself: the window is between the rekey answer it received and the answer to its DELETE of the old IKE_SA
+    ca['lifetime'], cb['lifetime'] = (r.choice([6, 8, 12]), 10000) if own else (10000, r.choice([6, 8, 12]))
     ca['dpd'] = cb['dpd'] = 600
     for c in (ca, cb):
         for p in c['protect']:
@@ -546,10 +547,10 @@ def _rekey_window_batch(sc, r):
     flow2 = configs.flow_for_entry(r, ra['my_addr'], ra['peer_addr'], ra['protect'][1])
     sc['ops'] = [{'t': 0.0, 'op': 'start', 'node': 'A'}, {'t': 0.05, 'op': 'start', 'node': 'B'},
                  {'t': 1.0, 'op': 'packet', 'node': 'A', 'flow': flow1}]
-    sc['acquire_after_rekey_answer'] = {'flow': flow2, 'delay': r.choice([0.0, 0.001, 0.004]), 'drop_delete': r.random() < 0.5}
+    sc['acquire_after_rekey_answer'] = {'flow': flow2, 'delay': r.choice([0.0, 0.001, 0.004]), 'drop_delete': r.random() < 0.5, 'own': own}
     sc['fates'] = {}
     sc['fate_policy'] = {'mode': 'deliver'}
-    sc['until'] = float(cb['lifetime'] + 5 + 12)
+    sc['until'] = float(min(ca['lifetime'], cb['lifetime']) + 5 + 12)
     sc['quiet_from'] = sc['until']
     sc['meta']['batch'] = 'rekey_window'
     sc['meta']['faults'] = []
@@ -746,7 +747,20 @@ def run(scenario):
 
                 def on_wire(self, meta, data):
                     h = parse_header(data)
-                    if self.fired or h is None or meta['sender'] != 'A' or h['exch'] != 36 or not h['R']:
+                    if self.fired or h is None or meta['sender'] != 'A':
+                        return
+                    if aw.get('own'):
+                        # A's first INFORMATIONAL request (no DPD, no CHILD_SA expiry with these configurations): the DELETE of the IKE_SA it
+                        # has just rekeyed itself; its table holds the replaced IKE_SA in front of the idle successor until the answer comes
+                        if h['exch'] != 37 or h['R']:
+                            return
+                        self.fired = True
+                        orc._r('rekey_window.acquire_fired_own_rekey')
+                        w.after(aw['delay'], lambda: w.packet('A', aw['flow']), 'rekey_window.packet')
+                        if aw.get('drop_delete'):
+                            w.decisions.explicit[meta['key']] = {'fate': 'drop'}
+                        return
+                    if h['exch'] != 36 or not h['R']:
                         return
                     # A answers a CREATE_CHILD_SA request of B: with these configurations that is B's IKE_SA rekey
                     self.fired = True
